@@ -152,7 +152,7 @@ type stateOpts struct {
 
 func newState(keys srvKeys, o stateOpts) *server.State {
 	if o.proxyBook == nil {
-		o.proxyBook = map[string][]string{"shadowsocks": {"tcp", "127.0.0.1:9"}, "openvpn": {"udp", "127.0.0.1:9"}}
+		o.proxyBook = map[string][]string{"shadowsocks": {"tcp", "127.0.0.1:9"}, "openvpn": {"udp", "127.0.0.1:9"}, "MixedCaseSS": {"tcp", "127.0.0.1:9"}}
 	}
 	if o.now == nil {
 		o.now = time.Now
